@@ -43,17 +43,15 @@ Dev_DbIdFromCount ==
   /\ (\A i \in DOMAIN E.dec.records : Intended(E.dec.records[i]) \/ UnknownOrWrongDb(E.dec.records[i])) = TRUE
   /\ used' = used \cup {"Dev_DbIdFromCount"}
 
-(* the same finding, other manifestation: a database whose metadata file is not on disk (a kill *)
-(* between the first data files and the metadata file of its first snapshot) is given the      *)
-(* number of databases loaded so far as identifier, which another database may already carry   *)
-NoMeta == {E.dec.nometa[i] : i \in DOMAIN E.dec.nometa}
-SharedOnlyWithoutMeta == \A a, b \in DOMAIN E.dec.dbids :
-                            (a # b /\ E.dec.dbids[a] = E.dec.dbids[b]) => (a \in NoMeta \/ b \in NoMeta)
+(* the same finding, other manifestation: two databases carry the same identifier.  An identifier *)
+(* is the number of databases present when it is assigned -- by create-db, or by the loader for a  *)
+(* database whose metadata file is not on disk (kill between the data files and the metadata file  *)
+(* of its first snapshot) -- so after a restart that restored only some databases the next         *)
+(* assignment repeats the identifier of a restored one                                             *)
 Dev_DbIdFromCount_Shared ==
   /\ "Dev_DbIdFromCount" \in Devs
   /\ E.ev = "check" /\ E.dec.start = "ok"
   /\ IdsDistinct = FALSE
-  /\ SharedOnlyWithoutMeta = TRUE
   /\ (E.dec.valid => \A i \in DOMAIN E.dec.records :
                         Intended(E.dec.records[i]) \/ UnknownOrWrongDb(E.dec.records[i])) = TRUE
   /\ used' = used \cup {"Dev_DbIdFromCount"}
